@@ -1,1 +1,970 @@
-(* placeholder: proofs are delivered into this file *)
+(* C09: the model of aes.cpp (AesModel) computes FIPS-197 AES-128 (AesSpec) on every
+   well-formed key/block, decryption inverts encryption, outputs are blocks, and the
+   generated tables are the FIPS-197 ones.
+
+   Part A (helper lemmas): finite sweeps over bytes, table facts about the generated constants
+   (always by computation, never by assuming their values), byte-closure of the FIPS-197
+   operations, the column-level and block-level inverse laws, and the commutation of every
+   model step with the transposition of the state.
+   Part B: round loops, the six C09 statements, known-answer tests. *)
+From Coq Require Import NArith List Bool Arith Lia Btauto.
+From Wencry Require Import Bytes AesSpec AesModel.
+From Wencry.Gen Require Import AesTab AesCoef.
+Import ListNotations.
+Local Open Scope N_scope.
+
+(* ------------------------------------------------------------------ *)
+(* 1. exhaustive sweeps                                                *)
+(* ------------------------------------------------------------------ *)
+
+Lemma in_all_bytes : forall b, b < 256 -> In b all_bytes.
+Proof.
+  intros b Hb. unfold all_bytes. rewrite <- (N2Nat.id b).
+  apply in_map. apply in_seq. lia.
+Qed.
+
+Lemma sweep : forall P : N -> bool,
+  forallb P all_bytes = true -> forall b, b < 256 -> P b = true.
+Proof.
+  intros P H b Hb. rewrite forallb_forall in H. apply H. apply in_all_bytes. exact Hb.
+Qed.
+
+(* prove  [L a = R a]  for a byte [a] (hypothesis [H : a < 256]) by running all 256 cases *)
+Ltac byte_sweep a H :=
+  revert a H;
+  match goal with
+  | |- forall a', a' < 256 -> @?L a' = @?R a' =>
+      intros a H; apply N.eqb_eq;
+      change ((fun x => L x =? R x) a = true);
+      apply sweep; [ vm_compute; reflexivity | exact H ]
+  end.
+
+(* same for  [L a < 256] *)
+Ltac byte_sweep_lt a H :=
+  revert a H;
+  match goal with
+  | |- forall a', a' < 256 -> @?L a' < 256 =>
+      intros a H; apply N.ltb_lt;
+      change ((fun x => L x <? 256) a = true);
+      apply sweep; [ vm_compute; reflexivity | exact H ]
+  end.
+
+(* ------------------------------------------------------------------ *)
+(* 2. xor on bytes                                                     *)
+(* ------------------------------------------------------------------ *)
+
+Lemma log2_byte : forall a, a < 256 -> N.log2 a < 8.
+Proof.
+  intros a Ha. destruct (N.eq_dec a 0) as [E|E].
+  - rewrite E. reflexivity.
+  - apply N.log2_lt_pow2; [lia | exact Ha].
+Qed.
+
+Lemma lxor_lt256 : forall a b, a < 256 -> b < 256 -> N.lxor a b < 256.
+Proof.
+  intros a b Ha Hb.
+  destruct (N.eq_dec (N.lxor a b) 0) as [E|E]; [rewrite E; reflexivity|].
+  change 256 with (2 ^ 8). apply N.log2_lt_pow2; [lia|].
+  eapply N.le_lt_trans; [apply N.log2_lxor|].
+  apply N.max_lub_lt; apply log2_byte; assumption.
+Qed.
+
+Lemma lxor_cancel_r : forall a b, N.lxor (N.lxor a b) b = a.
+Proof. intros a b. rewrite N.lxor_assoc, N.lxor_nilpotent, N.lxor_0_r. reflexivity. Qed.
+
+Lemma x4_lt256 : forall a b c d, a < 256 -> b < 256 -> c < 256 -> d < 256 -> x4 a b c d < 256.
+Proof. intros a b c d Ha Hb Hc Hd. unfold x4. repeat apply lxor_lt256; assumption. Qed.
+
+Lemma x4_transpose : forall a0 a1 a2 a3 b0 b1 b2 b3 c0 c1 c2 c3 d0 d1 d2 d3,
+  x4 (x4 a0 a1 a2 a3) (x4 b0 b1 b2 b3) (x4 c0 c1 c2 c3) (x4 d0 d1 d2 d3) =
+  x4 (x4 a0 b0 c0 d0) (x4 a1 b1 c1 d1) (x4 a2 b2 c2 d2) (x4 a3 b3 c3 d3).
+Proof.
+  intros. unfold x4. apply N.bits_inj. intro n. rewrite !N.lxor_spec. btauto.
+Qed.
+
+Lemma x4_a000 : forall a, x4 a 0 0 0 = a.
+Proof. intro a. unfold x4. rewrite !N.lxor_0_r. reflexivity. Qed.
+Lemma x4_0a00 : forall a, x4 0 a 0 0 = a.
+Proof. intro a. unfold x4. rewrite !N.lxor_0_r. apply N.lxor_0_l. Qed.
+Lemma x4_00a0 : forall a, x4 0 0 a 0 = a.
+Proof. intro a. unfold x4. rewrite !N.lxor_0_r. rewrite !N.lxor_0_l. reflexivity. Qed.
+Lemma x4_000a : forall a, x4 0 0 0 a = a.
+Proof. intro a. unfold x4. rewrite !N.lxor_0_l. reflexivity. Qed.
+
+(* ------------------------------------------------------------------ *)
+(* 3. GF(2^8) multiplication of the specification                      *)
+(* ------------------------------------------------------------------ *)
+
+Lemma odd_lxor : forall x y, N.odd (N.lxor x y) = xorb (N.odd x) (N.odd y).
+Proof. intros x y. rewrite <- !N.bit0_odd. apply N.lxor_spec. Qed.
+
+Lemma div2_lxor : forall x y, N.div2 (N.lxor x y) = N.lxor (N.div2 x) (N.div2 y).
+Proof. intros x y. rewrite !N.div2_spec. apply N.shiftr_lxor. Qed.
+
+Lemma if_xorb : forall (p q : bool) (a : N),
+  (if xorb p q then a else 0) = N.lxor (if p then a else 0) (if q then a else 0).
+Proof.
+  intros p q a. destruct p, q; cbn [xorb];
+    rewrite ?N.lxor_0_r, ?N.lxor_0_l, ?N.lxor_nilpotent; reflexivity.
+Qed.
+
+Lemma lxor_swap4 : forall a b c d,
+  N.lxor (N.lxor a b) (N.lxor c d) = N.lxor (N.lxor a c) (N.lxor b d).
+Proof. intros. apply N.bits_inj. intro n. rewrite !N.lxor_spec. btauto. Qed.
+
+(* multiplication distributes over xor in its second argument (no range condition needed) *)
+Lemma gmul_fuel_lin : forall n a x y,
+  gmul_fuel n a (N.lxor x y) = N.lxor (gmul_fuel n a x) (gmul_fuel n a y).
+Proof.
+  induction n as [|n IH]; intros a x y; cbn [gmul_fuel].
+  - reflexivity.
+  - rewrite odd_lxor, div2_lxor, IH, if_xorb. apply lxor_swap4.
+Qed.
+
+Lemma gmul_lxor : forall c x y, gmul c (N.lxor x y) = N.lxor (gmul c x) (gmul c y).
+Proof. intros. unfold gmul. apply gmul_fuel_lin. Qed.
+
+Lemma gmul_x4 : forall k a b c d,
+  gmul k (x4 a b c d) = x4 (gmul k a) (gmul k b) (gmul k c) (gmul k d).
+Proof. intros. unfold x4. rewrite !gmul_lxor. reflexivity. Qed.
+
+Lemma gmul2_byte : forall a, a < 256 -> gmul 2 a < 256.
+Proof. intros a H. byte_sweep_lt a H. Qed.
+Lemma gmul3_byte : forall a, a < 256 -> gmul 3 a < 256.
+Proof. intros a H. byte_sweep_lt a H. Qed.
+Lemma gmul9_byte : forall a, a < 256 -> gmul 9 a < 256.
+Proof. intros a H. byte_sweep_lt a H. Qed.
+Lemma gmul11_byte : forall a, a < 256 -> gmul 11 a < 256.
+Proof. intros a H. byte_sweep_lt a H. Qed.
+Lemma gmul13_byte : forall a, a < 256 -> gmul 13 a < 256.
+Proof. intros a H. byte_sweep_lt a H. Qed.
+Lemma gmul14_byte : forall a, a < 256 -> gmul 14 a < 256.
+Proof. intros a H. byte_sweep_lt a H. Qed.
+
+Lemma SubByte_byte : forall a, a < 256 -> SubByte a < 256.
+Proof. intros a H. byte_sweep_lt a H. Qed.
+Lemma InvSubByte_byte : forall a, a < 256 -> InvSubByte a < 256.
+Proof. intros a H. byte_sweep_lt a H. Qed.
+Lemma InvSubByte_SubByte : forall a, a < 256 -> InvSubByte (SubByte a) = a.
+Proof. intros a H. byte_sweep a H. Qed.
+Lemma SubByte_InvSubByte : forall a, a < 256 -> SubByte (InvSubByte a) = a.
+Proof. intros a H. byte_sweep a H. Qed.
+
+Lemma xtime_byte : forall a, a < 256 -> xtime a < 256.
+Proof. intros a H. byte_sweep_lt a H. Qed.
+
+Lemma rcon_byte : forall i, rcon i < 256.
+Proof.
+  induction i as [|i IH]; [reflexivity|].
+  destruct i as [|i]; [reflexivity|].
+  change (rcon (S (S i))) with (xtime (rcon (S i))). apply xtime_byte. exact IH.
+Qed.
+
+#[global] Hint Resolve lxor_lt256 x4_lt256 gmul2_byte gmul3_byte gmul9_byte gmul11_byte
+  gmul13_byte gmul14_byte SubByte_byte InvSubByte_byte rcon_byte : bytes.
+
+(* ------------------------------------------------------------------ *)
+(* 4. the generated tables (always by computation on the Gen constants) *)
+(* ------------------------------------------------------------------ *)
+
+Lemma tab_s_box_fips : tab_s_box = fips_sbox.
+Proof. vm_compute. reflexivity. Qed.
+
+Lemma tab_rs_box_fips : tab_rs_box = fips_inv_sbox.
+Proof. vm_compute. reflexivity. Qed.
+
+Lemma sbox_SubByte : forall b, sbox b = SubByte b.
+Proof. intro b. unfold sbox, SubByte. rewrite tab_s_box_fips. reflexivity. Qed.
+
+Lemma rsbox_InvSubByte : forall b, rsbox b = InvSubByte b.
+Proof. intro b. unfold rsbox, InvSubByte. rewrite tab_rs_box_fips. reflexivity. Qed.
+
+Lemma Gmul_25 : forall v, v < 256 -> Gmul 25 v = gmul 2 v.
+Proof. intros v H. byte_sweep v H. Qed.
+Lemma Gmul_1 : forall v, v < 256 -> Gmul 1 v = gmul 3 v.
+Proof. intros v H. byte_sweep v H. Qed.
+Lemma Gmul_0 : forall v, v < 256 -> Gmul 0 v = v.
+Proof. intros v H. byte_sweep v H. Qed.
+Lemma Gmul_223 : forall v, v < 256 -> Gmul 223 v = gmul 14 v.
+Proof. intros v H. byte_sweep v H. Qed.
+Lemma Gmul_104 : forall v, v < 256 -> Gmul 104 v = gmul 11 v.
+Proof. intros v H. byte_sweep v H. Qed.
+Lemma Gmul_238 : forall v, v < 256 -> Gmul 238 v = gmul 13 v.
+Proof. intros v H. byte_sweep v H. Qed.
+Lemma Gmul_199 : forall v, v < 256 -> Gmul 199 v = gmul 9 v.
+Proof. intros v H. byte_sweep v H. Qed.
+
+Lemma tab_RC_rcon : forall i, (1 <= i <= 10)%nat -> nth i tab_RC 0 = rcon i.
+Proof.
+  intros i Hi.
+  do 11 (destruct i as [|i]; [try lia; vm_compute; reflexivity|]). lia.
+Qed.
+
+Lemma key_rounds_val : (N.to_nat key_rounds - 1)%nat = 10%nat.
+Proof. vm_compute. reflexivity. Qed.
+Lemma enc_round_struct_val : enc_round_struct = [9; 9; 10].
+Proof. vm_compute. reflexivity. Qed.
+Lemma dec_round_struct_val : dec_round_struct = [9; 10; 8].
+Proof. vm_compute. reflexivity. Qed.
+
+(* ------------------------------------------------------------------ *)
+(* 5. blocks as explicit 16-element lists                              *)
+(* ------------------------------------------------------------------ *)
+
+Lemma block16_elim : forall P : list N -> Prop,
+  (forall v0 v1 v2 v3 v4 v5 v6 v7 v8 v9 v10 v11 v12 v13 v14 v15,
+     v0 < 256 -> v1 < 256 -> v2 < 256 -> v3 < 256 -> v4 < 256 -> v5 < 256 -> v6 < 256 -> v7 < 256 -> v8 < 256 -> v9 < 256 -> v10 < 256 -> v11 < 256 -> v12 < 256 -> v13 < 256 -> v14 < 256 -> v15 < 256 ->
+     P [v0;v1;v2;v3;v4;v5;v6;v7;v8;v9;v10;v11;v12;v13;v14;v15]) ->
+  forall s, block16 s -> P s.
+Proof.
+  intros P H s [Hlen Hb].
+  do 16 (destruct s as [|? s]; [discriminate Hlen|]).
+  destruct s; [|discriminate Hlen].
+  unfold bytesb in Hb. cbn [forallb] in Hb.
+  repeat (apply andb_true_iff in Hb; destruct Hb as [? Hb]).
+  unfold byte_ok in *.
+  apply H; apply N.ltb_lt; assumption.
+Qed.
+
+Lemma block16_intro : forall v0 v1 v2 v3 v4 v5 v6 v7 v8 v9 v10 v11 v12 v13 v14 v15,
+  v0 < 256 -> v1 < 256 -> v2 < 256 -> v3 < 256 -> v4 < 256 -> v5 < 256 -> v6 < 256 -> v7 < 256 -> v8 < 256 -> v9 < 256 -> v10 < 256 -> v11 < 256 -> v12 < 256 -> v13 < 256 -> v14 < 256 -> v15 < 256 ->
+  block16 [v0;v1;v2;v3;v4;v5;v6;v7;v8;v9;v10;v11;v12;v13;v14;v15].
+Proof.
+  intros. split; [reflexivity|].
+  unfold bytesb. cbn [forallb]. unfold byte_ok.
+  repeat (apply andb_true_iff; split); try reflexivity; apply N.ltb_lt; assumption.
+Qed.
+
+Lemma block16_length : forall s, block16 s -> length s = 16%nat.
+Proof. intros s [H _]. exact H. Qed.
+
+(* destruct a block hypothesis into 16 byte variables; the goal must mention nothing else
+   that depends on [s] *)
+Ltac blk s Hs :=
+  revert s Hs;
+  match goal with |- forall s', block16 s' -> @?P s' => apply (block16_elim P) end;
+  intros ? ? ? ? ? ? ? ? ? ? ? ? ? ? ? ? ? ? ? ? ? ? ? ? ? ? ? ? ? ? ? ?.
+Ltac blk_intro := apply block16_intro; auto 10 with bytes.
+
+(* ------------------------------------------------------------------ *)
+(* 6. FIPS-197 steps keep blocks well formed                           *)
+(* ------------------------------------------------------------------ *)
+
+Lemma SubBytes_block : forall s, block16 s -> block16 (SubBytes s).
+Proof. intros s Hs. blk s Hs. cbv [SubBytes map]. blk_intro. Qed.
+
+Lemma InvSubBytes_block : forall s, block16 s -> block16 (InvSubBytes s).
+Proof. intros s Hs. blk s Hs. cbv [InvSubBytes map]. blk_intro. Qed.
+
+Lemma ShiftRows_block : forall s, block16 s -> block16 (ShiftRows s).
+Proof. intros s Hs. blk s Hs. cbv [ShiftRows perm map nth]. blk_intro. Qed.
+
+Lemma InvShiftRows_block : forall s, block16 s -> block16 (InvShiftRows s).
+Proof. intros s Hs. blk s Hs. cbv [InvShiftRows perm map nth]. blk_intro. Qed.
+
+Lemma MixColumns_block : forall s, block16 s -> block16 (MixColumns s).
+Proof. intros s Hs. blk s Hs. cbv [MixColumns on_columns mix_column app]. blk_intro. Qed.
+
+Lemma InvMixColumns_block : forall s, block16 s -> block16 (InvMixColumns s).
+Proof. intros s Hs. blk s Hs. cbv [InvMixColumns on_columns inv_mix_column app]. blk_intro. Qed.
+
+Lemma AddRoundKey_block : forall s k, block16 s -> block16 k -> block16 (AddRoundKey s k).
+Proof.
+  intros s k Hs Hk. revert k Hk. blk s Hs. intros k Hk. blk k Hk.
+  cbv [AddRoundKey xorl map2]. blk_intro.
+Qed.
+
+Lemma next_round_key_block : forall i k, block16 k -> block16 (next_round_key i k).
+Proof. intros i k Hk. blk k Hk. cbv [next_round_key]. blk_intro. Qed.
+
+#[global] Hint Resolve SubBytes_block InvSubBytes_block ShiftRows_block InvShiftRows_block
+  MixColumns_block InvMixColumns_block AddRoundKey_block next_round_key_block : b16.
+
+(* ------------------------------------------------------------------ *)
+(* 7. inverse laws of the FIPS-197 steps                               *)
+(* ------------------------------------------------------------------ *)
+
+Lemma InvSubBytes_SubBytes : forall s, block16 s -> InvSubBytes (SubBytes s) = s.
+Proof.
+  intros s Hs. blk s Hs. cbv [InvSubBytes SubBytes map].
+  rewrite !InvSubByte_SubByte by assumption. reflexivity.
+Qed.
+
+Lemma SubBytes_InvSubBytes : forall s, block16 s -> SubBytes (InvSubBytes s) = s.
+Proof.
+  intros s Hs. blk s Hs. cbv [InvSubBytes SubBytes map].
+  rewrite !SubByte_InvSubByte by assumption. reflexivity.
+Qed.
+
+Lemma InvShiftRows_ShiftRows : forall s, block16 s -> InvShiftRows (ShiftRows s) = s.
+Proof. intros s Hs. blk s Hs. reflexivity. Qed.
+
+Lemma ShiftRows_InvShiftRows : forall s, block16 s -> ShiftRows (InvShiftRows s) = s.
+Proof. intros s Hs. blk s Hs. reflexivity. Qed.
+
+Lemma AddRoundKey_involutive : forall s k, block16 s -> block16 k ->
+  AddRoundKey (AddRoundKey s k) k = s.
+Proof.
+  intros s k Hs Hk. revert k Hk. blk s Hs. intros k Hk. blk k Hk.
+  cbv [AddRoundKey xorl map2]. rewrite !lxor_cancel_r. reflexivity.
+Qed.
+
+Lemma list4_eq : forall a b c d a' b' c' d' : N,
+  a = a' -> b = b' -> c = c' -> d = d' -> [a; b; c; d] = [a'; b'; c'; d'].
+Proof. intros. subst. reflexivity. Qed.
+
+Lemma x4_eq : forall a b c d a' b' c' d' : N,
+  a = a' -> b = b' -> c = c' -> d = d' -> x4 a b c d = x4 a' b' c' d'.
+Proof. intros. subst. reflexivity. Qed.
+
+(* the two 4x4 coefficient matrices of 5.1.3 / 5.3.3 are inverse to each other:
+   16 + 16 coefficient identities, each one a 256-case sweep *)
+Lemma inv_mix_mix_column : forall a0 a1 a2 a3,
+  a0 < 256 -> a1 < 256 -> a2 < 256 -> a3 < 256 ->
+  inv_mix_column (mix_column [a0; a1; a2; a3]) = [a0; a1; a2; a3].
+Proof.
+  intros a0 a1 a2 a3 H0 H1 H2 H3. cbv [mix_column inv_mix_column].
+  apply list4_eq; rewrite !gmul_x4, x4_transpose.
+  - transitivity (x4 a0 0 0 0); [|apply x4_a000].
+    apply x4_eq; [byte_sweep a0 H0|byte_sweep a1 H1|byte_sweep a2 H2|byte_sweep a3 H3].
+  - transitivity (x4 0 a1 0 0); [|apply x4_0a00].
+    apply x4_eq; [byte_sweep a0 H0|byte_sweep a1 H1|byte_sweep a2 H2|byte_sweep a3 H3].
+  - transitivity (x4 0 0 a2 0); [|apply x4_00a0].
+    apply x4_eq; [byte_sweep a0 H0|byte_sweep a1 H1|byte_sweep a2 H2|byte_sweep a3 H3].
+  - transitivity (x4 0 0 0 a3); [|apply x4_000a].
+    apply x4_eq; [byte_sweep a0 H0|byte_sweep a1 H1|byte_sweep a2 H2|byte_sweep a3 H3].
+Qed.
+
+Lemma mix_inv_mix_column : forall a0 a1 a2 a3,
+  a0 < 256 -> a1 < 256 -> a2 < 256 -> a3 < 256 ->
+  mix_column (inv_mix_column [a0; a1; a2; a3]) = [a0; a1; a2; a3].
+Proof.
+  intros a0 a1 a2 a3 H0 H1 H2 H3. cbv [mix_column inv_mix_column].
+  apply list4_eq; rewrite !gmul_x4, x4_transpose.
+  - transitivity (x4 a0 0 0 0); [|apply x4_a000].
+    apply x4_eq; [byte_sweep a0 H0|byte_sweep a1 H1|byte_sweep a2 H2|byte_sweep a3 H3].
+  - transitivity (x4 0 a1 0 0); [|apply x4_0a00].
+    apply x4_eq; [byte_sweep a0 H0|byte_sweep a1 H1|byte_sweep a2 H2|byte_sweep a3 H3].
+  - transitivity (x4 0 0 a2 0); [|apply x4_00a0].
+    apply x4_eq; [byte_sweep a0 H0|byte_sweep a1 H1|byte_sweep a2 H2|byte_sweep a3 H3].
+  - transitivity (x4 0 0 0 a3); [|apply x4_000a].
+    apply x4_eq; [byte_sweep a0 H0|byte_sweep a1 H1|byte_sweep a2 H2|byte_sweep a3 H3].
+Qed.
+
+Lemma InvMixColumns_MixColumns : forall s, block16 s -> InvMixColumns (MixColumns s) = s.
+Proof.
+  intros s Hs. blk s Hs.
+  pose proof (inv_mix_mix_column v0 v1 v2 v3) as E0.
+  pose proof (inv_mix_mix_column v4 v5 v6 v7) as E1.
+  pose proof (inv_mix_mix_column v8 v9 v10 v11) as E2.
+  pose proof (inv_mix_mix_column v12 v13 v14 v15) as E3.
+  cbv [mix_column inv_mix_column] in E0, E1, E2, E3.
+  cbv [InvMixColumns MixColumns on_columns mix_column inv_mix_column app].
+  injection (E0 ltac:(assumption) ltac:(assumption) ltac:(assumption) ltac:(assumption)) as E00 E01 E02 E03.
+  injection (E1 ltac:(assumption) ltac:(assumption) ltac:(assumption) ltac:(assumption)) as E10 E11 E12 E13.
+  injection (E2 ltac:(assumption) ltac:(assumption) ltac:(assumption) ltac:(assumption)) as E20 E21 E22 E23.
+  injection (E3 ltac:(assumption) ltac:(assumption) ltac:(assumption) ltac:(assumption)) as E30 E31 E32 E33.
+  rewrite E00, E01, E02, E03, E10, E11, E12, E13, E20, E21, E22, E23, E30, E31, E32, E33.
+  reflexivity.
+Qed.
+
+Lemma MixColumns_InvMixColumns : forall s, block16 s -> MixColumns (InvMixColumns s) = s.
+Proof.
+  intros s Hs. blk s Hs.
+  pose proof (mix_inv_mix_column v0 v1 v2 v3) as E0.
+  pose proof (mix_inv_mix_column v4 v5 v6 v7) as E1.
+  pose proof (mix_inv_mix_column v8 v9 v10 v11) as E2.
+  pose proof (mix_inv_mix_column v12 v13 v14 v15) as E3.
+  cbv [mix_column inv_mix_column] in E0, E1, E2, E3.
+  cbv [InvMixColumns MixColumns on_columns mix_column inv_mix_column app].
+  injection (E0 ltac:(assumption) ltac:(assumption) ltac:(assumption) ltac:(assumption)) as E00 E01 E02 E03.
+  injection (E1 ltac:(assumption) ltac:(assumption) ltac:(assumption) ltac:(assumption)) as E10 E11 E12 E13.
+  injection (E2 ltac:(assumption) ltac:(assumption) ltac:(assumption) ltac:(assumption)) as E20 E21 E22 E23.
+  injection (E3 ltac:(assumption) ltac:(assumption) ltac:(assumption) ltac:(assumption)) as E30 E31 E32 E33.
+  rewrite E00, E01, E02, E03, E10, E11, E12, E13, E20, E21, E22, E23, E30, E31, E32, E33.
+  reflexivity.
+Qed.
+
+(* ------------------------------------------------------------------ *)
+(* 8. every model step is the FIPS-197 step conjugated by [transpose]  *)
+(* ------------------------------------------------------------------ *)
+
+Lemma transpose_block : forall s, block16 s -> block16 (transpose s).
+Proof. intros s Hs. blk s Hs. cbv [transpose mperm map nth]. blk_intro. Qed.
+#[global] Hint Resolve transpose_block : b16.
+
+Lemma transpose_involutive : forall s, block16 s -> transpose (transpose s) = s.
+Proof. intros s Hs. blk s Hs. reflexivity. Qed.
+
+Lemma enc_subbytes_transpose : forall s, block16 s ->
+  enc_subbytes (transpose s) = transpose (SubBytes s).
+Proof.
+  intros s Hs. unfold enc_subbytes. rewrite (map_ext _ _ sbox_SubByte).
+  blk s Hs. reflexivity.
+Qed.
+
+Lemma dec_subbytes_transpose : forall s, block16 s ->
+  dec_subbytes (transpose s) = transpose (InvSubBytes s).
+Proof.
+  intros s Hs. unfold dec_subbytes. rewrite (map_ext _ _ rsbox_InvSubByte).
+  blk s Hs. reflexivity.
+Qed.
+
+Lemma enc_rowshift_transpose : forall s, block16 s ->
+  enc_rowshift (transpose s) = transpose (ShiftRows s).
+Proof. intros s Hs. blk s Hs. reflexivity. Qed.
+
+Lemma dec_rowshift_transpose : forall s, block16 s ->
+  dec_rowshift (transpose s) = transpose (InvShiftRows s).
+Proof. intros s Hs. blk s Hs. reflexivity. Qed.
+
+Lemma addroundkey_transpose : forall s k, block16 s -> block16 k ->
+  addroundkey (transpose s) (transpose k) = transpose (AddRoundKey s k).
+Proof.
+  intros s k Hs Hk. revert k Hk. blk s Hs. intros k Hk. blk k Hk. reflexivity.
+Qed.
+
+Lemma mumline_x4 : forall p q r s a b c d,
+  mumline [p; q; r; s] a b c d = x4 (Gmul p a) (Gmul q b) (Gmul r c) (Gmul s d).
+Proof.
+  intros. unfold mumline, x4. cbn [nth]. rewrite !N.lxor_assoc. reflexivity.
+Qed.
+
+Lemma enc_columnmix_transpose : forall s, block16 s ->
+  columnmix enc_mix_rows (transpose s) = transpose (MixColumns s).
+Proof.
+  intros s Hs. blk s Hs.
+  cbv -[Gmul gmul mumline x4 N.lxor].
+  rewrite !mumline_x4.
+  rewrite !Gmul_25, !Gmul_1, !Gmul_0 by assumption.
+  reflexivity.
+Qed.
+
+Lemma dec_columnmix_transpose : forall s, block16 s ->
+  columnmix dec_mix_rows (transpose s) = transpose (InvMixColumns s).
+Proof.
+  intros s Hs. blk s Hs.
+  cbv -[Gmul gmul mumline x4 N.lxor].
+  rewrite !mumline_x4.
+  rewrite !Gmul_223, !Gmul_104, !Gmul_238, !Gmul_199 by assumption.
+  reflexivity.
+Qed.
+
+(* the four round functions *)
+Lemma enc_commonround_transpose : forall p k, block16 p -> block16 k ->
+  enc_commonround (transpose p) (transpose k) =
+  transpose (MixColumns (ShiftRows (SubBytes (AddRoundKey p k)))).
+Proof.
+  intros p k Hp Hk. unfold enc_commonround.
+  rewrite addroundkey_transpose, enc_subbytes_transpose, enc_rowshift_transpose,
+    enc_columnmix_transpose by auto with b16.
+  reflexivity.
+Qed.
+
+Lemma enc_specround_transpose : forall p k1 k2, block16 p -> block16 k1 -> block16 k2 ->
+  enc_specround (transpose p) (transpose k1) (transpose k2) =
+  transpose (AddRoundKey (ShiftRows (SubBytes (AddRoundKey p k1))) k2).
+Proof.
+  intros p k1 k2 Hp Hk1 Hk2. unfold enc_specround.
+  rewrite (addroundkey_transpose p k1), enc_subbytes_transpose, enc_rowshift_transpose,
+    addroundkey_transpose by auto with b16.
+  reflexivity.
+Qed.
+
+Lemma dec_commonround_transpose : forall q k, block16 q -> block16 k ->
+  dec_commonround (transpose q) (transpose k) =
+  transpose (AddRoundKey (InvSubBytes (InvShiftRows (InvMixColumns q))) k).
+Proof.
+  intros q k Hq Hk. unfold dec_commonround.
+  rewrite dec_columnmix_transpose, dec_rowshift_transpose, dec_subbytes_transpose,
+    addroundkey_transpose by auto with b16.
+  reflexivity.
+Qed.
+
+Lemma dec_specround_transpose : forall c k1 k2, block16 c -> block16 k1 -> block16 k2 ->
+  dec_specround (transpose c) (transpose k1) (transpose k2) =
+  transpose (AddRoundKey (InvSubBytes (InvShiftRows (AddRoundKey c k2))) k1).
+Proof.
+  intros c k1 k2 Hc Hk1 Hk2. unfold dec_specround.
+  rewrite (addroundkey_transpose c k2), dec_rowshift_transpose, dec_subbytes_transpose,
+    addroundkey_transpose by auto with b16.
+  reflexivity.
+Qed.
+
+(* ------------------------------------------------------------------ *)
+(* 9. key schedule                                                     *)
+(* ------------------------------------------------------------------ *)
+
+Lemma cons_eq : forall (a a' : N) l l', a = a' -> l = l' -> a :: l = a' :: l'.
+Proof. intros. subst. reflexivity. Qed.
+
+Ltac xor_ac := apply N.bits_inj; intro; rewrite ?N.lxor_spec; btauto.
+
+Lemma genkey_transpose : forall i k, block16 k -> nth i tab_RC 0 = rcon i ->
+  genkey i (transpose k) = transpose (next_round_key i k).
+Proof.
+  intros i k Hk Hrc. revert Hrc. blk k Hk. intro Hrc.
+  unfold genkey. rewrite Hrc.
+  cbv -[sbox SubByte rcon N.lxor].
+  rewrite (sbox_SubByte v12), (sbox_SubByte v13), (sbox_SubByte v14), (sbox_SubByte v15).
+  rewrite !N.lxor_0_r.
+  repeat (apply cons_eq; [xor_ac|]). reflexivity.
+Qed.
+
+Lemma genall_from_transpose : forall n i k, block16 k ->
+  (forall j, (i <= j < i + n)%nat -> nth j tab_RC 0 = rcon j) ->
+  genall_from i n (transpose k) = map transpose (expand_from i n k).
+Proof.
+  induction n as [|n IH]; intros i k Hk Hrc; cbn [genall_from expand_from map].
+  - reflexivity.
+  - rewrite genkey_transpose by (auto; apply Hrc; lia).
+    rewrite IH; [reflexivity | auto with b16 | intros j Hj; apply Hrc; lia].
+Qed.
+
+Lemma firstn16_block : forall k, block16 k -> firstn 16 k = k.
+Proof. intros k Hk. blk k Hk. reflexivity. Qed.
+
+Lemma genall_KeyExpansion : forall key, block16 key ->
+  genall key = map transpose (KeyExpansion key).
+Proof.
+  intros key Hk. unfold genall, KeyExpansion.
+  rewrite key_rounds_val, firstn16_block by exact Hk.
+  apply genall_from_transpose; [exact Hk|].
+  intros j Hj. apply tab_RC_rcon. lia.
+Qed.
+
+Lemma expand_from_length : forall n i k, length (expand_from i n k) = S n.
+Proof. induction n as [|n IH]; intros i k; cbn [expand_from length]; [|rewrite IH]; reflexivity. Qed.
+
+Lemma expand_from_blocks : forall n i k, block16 k -> Forall block16 (expand_from i n k).
+Proof.
+  induction n as [|n IH]; intros i k Hk; cbn [expand_from].
+  - constructor; [exact Hk|constructor].
+  - constructor; [exact Hk|]. apply IH. auto with b16.
+Qed.
+
+Lemma rk_block : forall key i, block16 key -> (i <= 10)%nat -> block16 (rk (KeyExpansion key) i).
+Proof.
+  intros key i Hk Hi. unfold rk, KeyExpansion.
+  pose proof (expand_from_blocks 10 1 key Hk) as HF. rewrite Forall_forall in HF.
+  apply HF. apply nth_In. rewrite expand_from_length. lia.
+Qed.
+
+Lemma getkey_rk : forall key i, block16 key -> (i <= 10)%nat ->
+  getkey (genall key) (N.of_nat i) = transpose (rk (KeyExpansion key) i).
+Proof.
+  intros key i Hk Hi. unfold getkey, rk. rewrite Nat2N.id, genall_KeyExpansion by exact Hk.
+  rewrite (nth_indep _ [] (transpose [])).
+  - apply map_nth.
+  - rewrite map_length. unfold KeyExpansion. rewrite expand_from_length. lia.
+Qed.
+
+(* ================================================================== *)
+(* Part B                                                              *)
+(* ================================================================== *)
+
+(* ------------------------------------------------------------------ *)
+(* 1. folds of round functions keep blocks well formed                 *)
+(* ------------------------------------------------------------------ *)
+
+Lemma fold_block : forall (f : list N -> nat -> list N) (l : list nat),
+  (forall s i, block16 s -> In i l -> block16 (f s i)) ->
+  forall s, block16 s -> block16 (fold_left f l s).
+Proof.
+  intros f l. induction l as [|a l IH]; intros Hf s Hs; cbn [fold_left].
+  - exact Hs.
+  - apply IH.
+    + intros s' i Hs' Hi. apply Hf; [exact Hs' | right; exact Hi].
+    + apply Hf; [exact Hs | left; reflexivity].
+Qed.
+
+Lemma enc_round_block : forall ks s i, block16 s -> block16 (rk ks i) ->
+  block16 (enc_round ks s i).
+Proof. intros ks s i Hs Hk. unfold enc_round. auto 10 with b16. Qed.
+
+Lemma dec_round_block : forall ks s i, block16 s -> block16 (rk ks i) ->
+  block16 (dec_round ks s i).
+Proof. intros ks s i Hs Hk. unfold dec_round. auto 10 with b16. Qed.
+
+(* the same rounds bracketed the way the C++ brackets them: AddRoundKey first (encryption),
+   AddRoundKey last (decryption) *)
+Definition enc_round' (ks : list (list N)) (p : list N) (i : nat) : list N :=
+  MixColumns (ShiftRows (SubBytes (AddRoundKey p (rk ks i)))).
+Definition dec_round' (ks : list (list N)) (q : list N) (i : nat) : list N :=
+  AddRoundKey (InvSubBytes (InvShiftRows (InvMixColumns q))) (rk ks i).
+
+Lemma enc_round'_block : forall ks s i, block16 s -> block16 (rk ks i) ->
+  block16 (enc_round' ks s i).
+Proof. intros ks s i Hs Hk. unfold enc_round'. auto 10 with b16. Qed.
+
+Lemma dec_round'_block : forall ks s i, block16 s -> block16 (rk ks i) ->
+  block16 (dec_round' ks s i).
+Proof. intros ks s i Hs Hk. unfold dec_round'. auto 10 with b16. Qed.
+
+#[local] Hint Resolve enc_round_block dec_round_block enc_round'_block dec_round'_block : b16.
+
+(* ------------------------------------------------------------------ *)
+(* 2. re-bracketing Cipher / InvCipher (pure rearrangement)            *)
+(* ------------------------------------------------------------------ *)
+
+Lemma enc_rebracket : forall ks n b,
+  fold_left (enc_round ks) (seq 1 n) (AddRoundKey b (rk ks 0)) =
+  AddRoundKey (fold_left (enc_round' ks) (seq 0 n) b) (rk ks n).
+Proof.
+  intros ks n b. induction n as [|n IH].
+  - reflexivity.
+  - rewrite !seq_S, !fold_left_app. cbn [fold_left]. rewrite IH. reflexivity.
+Qed.
+
+Lemma Cipher_rebracket : forall key b,
+  Cipher key b =
+  let ks := KeyExpansion key in
+  AddRoundKey (ShiftRows (SubBytes (AddRoundKey (fold_left (enc_round' ks) (seq 0 9) b) (rk ks 9))))
+              (rk ks 10).
+Proof. intros key b. unfold Cipher. cbv zeta. rewrite enc_rebracket. reflexivity. Qed.
+
+Lemma dec_rebracket : forall ks n t,
+  AddRoundKey (InvSubBytes (InvShiftRows (fold_left (dec_round ks) (rev (seq 1 n)) t))) (rk ks 0) =
+  fold_left (dec_round' ks) (rev (seq 0 n)) (AddRoundKey (InvSubBytes (InvShiftRows t)) (rk ks n)).
+Proof.
+  intros ks n. induction n as [|n IH]; intro t.
+  - reflexivity.
+  - rewrite !seq_S, !rev_app_distr. cbn [rev app fold_left]. rewrite IH. reflexivity.
+Qed.
+
+Lemma InvCipher_rebracket : forall key c,
+  InvCipher key c =
+  let ks := KeyExpansion key in
+  fold_left (dec_round' ks) (rev (seq 0 9))
+    (AddRoundKey (InvSubBytes (InvShiftRows (AddRoundKey c (rk ks 10)))) (rk ks 9)).
+Proof. intros key c. unfold InvCipher. cbv zeta. rewrite dec_rebracket. reflexivity. Qed.
+
+(* ------------------------------------------------------------------ *)
+(* 3. the model's round loops are the re-bracketed loops, transposed   *)
+(* ------------------------------------------------------------------ *)
+
+Lemma getkey_rkN : forall key n, block16 key -> n <= 10 ->
+  getkey (genall key) n = transpose (rk (KeyExpansion key) (N.to_nat n)).
+Proof.
+  intros key n Hk Hn. rewrite <- (N2Nat.id n) at 1. apply getkey_rk; [exact Hk | lia].
+Qed.
+
+Lemma enc_fold_transpose : forall key l, block16 key ->
+  (forall i, In i l -> (i <= 10)%nat) ->
+  forall p, block16 p ->
+  fold_left (fun w i => enc_commonround w (getkey (genall key) i)) (map N.of_nat l) (transpose p) =
+  transpose (fold_left (enc_round' (KeyExpansion key)) l p).
+Proof.
+  intros key l Hk. induction l as [|a l IH]; intros Hl p Hp; cbn [map fold_left].
+  - reflexivity.
+  - assert (Ha : (a <= 10)%nat) by (apply Hl; left; reflexivity).
+    rewrite getkey_rk by assumption.
+    rewrite enc_commonround_transpose by (auto using rk_block).
+    apply IH.
+    + intros i Hi. apply Hl. right. exact Hi.
+    + apply enc_round'_block; auto using rk_block.
+Qed.
+
+Lemma dec_fold_transpose : forall key l, block16 key ->
+  (forall i, In i l -> (i <= 10)%nat) ->
+  forall q, block16 q ->
+  fold_left (fun w i => dec_commonround w (getkey (genall key) i)) (map N.of_nat l) (transpose q) =
+  transpose (fold_left (dec_round' (KeyExpansion key)) l q).
+Proof.
+  intros key l Hk. induction l as [|a l IH]; intros Hl q Hq; cbn [map fold_left].
+  - reflexivity.
+  - assert (Ha : (a <= 10)%nat) by (apply Hl; left; reflexivity).
+    rewrite getkey_rk by assumption.
+    rewrite dec_commonround_transpose by (auto using rk_block).
+    apply IH.
+    + intros i Hi. apply Hl. right. exact Hi.
+    + apply dec_round'_block; auto using rk_block.
+Qed.
+
+Lemma seq09_le10 : forall i, In i (seq 0 9) -> (i <= 10)%nat.
+Proof. intros i Hi. apply in_seq in Hi. lia. Qed.
+
+Lemma rev_seq09_le10 : forall i, In i (rev (seq 0 9)) -> (i <= 10)%nat.
+Proof. intros i Hi. apply in_rev in Hi. apply seq09_le10. exact Hi. Qed.
+
+Lemma enc_fold'_block : forall key b, block16 key -> block16 b ->
+  block16 (fold_left (enc_round' (KeyExpansion key)) (seq 0 9) b).
+Proof.
+  intros key b Hk Hb. apply fold_block; [|exact Hb].
+  intros s i Hs Hi. apply enc_round'_block; [exact Hs|].
+  apply rk_block; [exact Hk | apply seq09_le10; exact Hi].
+Qed.
+
+Lemma dec_fold'_block : forall key q, block16 key -> block16 q ->
+  block16 (fold_left (dec_round' (KeyExpansion key)) (rev (seq 0 9)) q).
+Proof.
+  intros key q Hk Hq. apply fold_block; [|exact Hq].
+  intros s i Hs Hi. apply dec_round'_block; [exact Hs|].
+  apply rk_block; [exact Hk | apply rev_seq09_le10; exact Hi].
+Qed.
+
+(* ------------------------------------------------------------------ *)
+(* 4. model = FIPS-197                                                 *)
+(* ------------------------------------------------------------------ *)
+
+Theorem C09_encrypt_is_fips197_proof : forall k b,
+  block16 k -> block16 b -> aes_enc k b = Cipher k b.
+Proof.
+  intros k b Hk Hb.
+  rewrite Cipher_rebracket. cbv zeta.
+  unfold aes_enc, aes_enc_with. rewrite enc_round_struct_val. cbn [nth]. unfold Nseq.
+  change (N.to_nat 9) with 9%nat.
+  rewrite enc_fold_transpose by (auto using seq09_le10).
+  rewrite (getkey_rkN k 9), (getkey_rkN k 10) by (auto; lia).
+  change (N.to_nat 9) with 9%nat. change (N.to_nat 10) with 10%nat.
+  pose proof (enc_fold'_block k b Hk Hb) as Hf.
+  assert (H9 : block16 (rk (KeyExpansion k) 9)) by (apply rk_block; [exact Hk|lia]).
+  assert (H10 : block16 (rk (KeyExpansion k) 10)) by (apply rk_block; [exact Hk|lia]).
+  rewrite enc_specround_transpose by assumption.
+  apply transpose_involutive. auto 10 with b16.
+Qed.
+
+Theorem C09_decrypt_is_fips197_proof : forall k b,
+  block16 k -> block16 b -> aes_dec k b = InvCipher k b.
+Proof.
+  intros k b Hk Hb.
+  rewrite InvCipher_rebracket. cbv zeta.
+  unfold aes_dec, aes_dec_with. rewrite dec_round_struct_val. cbn [nth]. unfold Nseq.
+  change (N.to_nat (8 + 1)) with 9%nat.
+  rewrite (getkey_rkN k 9), (getkey_rkN k 10) by (auto; lia).
+  change (N.to_nat 9) with 9%nat. change (N.to_nat 10) with 10%nat.
+  assert (H9 : block16 (rk (KeyExpansion k) 9)) by (apply rk_block; [exact Hk|lia]).
+  assert (H10 : block16 (rk (KeyExpansion k) 10)) by (apply rk_block; [exact Hk|lia]).
+  rewrite dec_specround_transpose by assumption.
+  rewrite <- map_rev.
+  assert (Hq : block16 (AddRoundKey (InvSubBytes (InvShiftRows (AddRoundKey b (rk (KeyExpansion k) 10))))
+                                    (rk (KeyExpansion k) 9))) by auto 10 with b16.
+  rewrite dec_fold_transpose by (auto using rev_seq09_le10).
+  apply transpose_involutive. apply dec_fold'_block; assumption.
+Qed.
+
+(* ------------------------------------------------------------------ *)
+(* 5. InvCipher and Cipher are mutually inverse (FIPS-197 level)       *)
+(* ------------------------------------------------------------------ *)
+
+Lemma dec_enc_round : forall ks s i, block16 s -> block16 (rk ks i) ->
+  dec_round ks (ShiftRows (SubBytes (enc_round ks s i))) i = ShiftRows (SubBytes s).
+Proof.
+  intros ks s i Hs Hk. unfold dec_round, enc_round.
+  rewrite InvShiftRows_ShiftRows, InvSubBytes_SubBytes, AddRoundKey_involutive,
+    InvMixColumns_MixColumns by auto 12 with b16.
+  reflexivity.
+Qed.
+
+Lemma enc_dec_round : forall ks t i, block16 t -> block16 (rk ks i) ->
+  enc_round ks (InvSubBytes (InvShiftRows (dec_round ks t i))) i = InvSubBytes (InvShiftRows t).
+Proof.
+  intros ks t i Ht Hk. unfold dec_round, enc_round.
+  rewrite SubBytes_InvSubBytes, ShiftRows_InvShiftRows, MixColumns_InvMixColumns,
+    AddRoundKey_involutive by auto 12 with b16.
+  reflexivity.
+Qed.
+
+Lemma fold_dec_enc : forall ks l, (forall i, In i l -> block16 (rk ks i)) ->
+  forall s, block16 s ->
+  fold_left (dec_round ks) (rev l) (ShiftRows (SubBytes (fold_left (enc_round ks) l s))) =
+  ShiftRows (SubBytes s).
+Proof.
+  intros ks l. induction l as [|i l IH] using rev_ind; intros Hks s Hs.
+  - reflexivity.
+  - rewrite rev_app_distr, !fold_left_app. cbn [rev app fold_left].
+    assert (Hl : forall j, In j l -> block16 (rk ks j))
+      by (intros j Hj; apply Hks; apply in_or_app; left; exact Hj).
+    assert (Hi : block16 (rk ks i))
+      by (apply Hks; apply in_or_app; right; left; reflexivity).
+    rewrite dec_enc_round.
+    + apply IH; assumption.
+    + apply fold_block; [|exact Hs]. intros s' j Hs' Hj. apply enc_round_block; auto.
+    + exact Hi.
+Qed.
+
+Lemma fold_enc_dec : forall ks l, (forall i, In i l -> block16 (rk ks i)) ->
+  forall t, block16 t ->
+  fold_left (enc_round ks) l (InvSubBytes (InvShiftRows (fold_left (dec_round ks) (rev l) t))) =
+  InvSubBytes (InvShiftRows t).
+Proof.
+  intros ks l. induction l as [|i l IH] using rev_ind; intros Hks t Ht.
+  - reflexivity.
+  - rewrite rev_app_distr, !fold_left_app. cbn [rev app fold_left].
+    assert (Hl : forall j, In j l -> block16 (rk ks j))
+      by (intros j Hj; apply Hks; apply in_or_app; left; exact Hj).
+    assert (Hi : block16 (rk ks i))
+      by (apply Hks; apply in_or_app; right; left; reflexivity).
+    rewrite IH by auto with b16.
+    apply enc_dec_round; assumption.
+Qed.
+
+Lemma seq19_rk_block : forall key, block16 key ->
+  forall i, In i (seq 1 9) -> block16 (rk (KeyExpansion key) i).
+Proof. intros key Hk i Hi. apply in_seq in Hi. apply rk_block; [exact Hk|lia]. Qed.
+
+Lemma enc_fold_block : forall key s, block16 key -> block16 s ->
+  block16 (fold_left (enc_round (KeyExpansion key)) (seq 1 9) s).
+Proof.
+  intros key s Hk Hs. apply fold_block; [|exact Hs].
+  intros s' i Hs' Hi. apply enc_round_block; [exact Hs'|]. apply seq19_rk_block; assumption.
+Qed.
+
+Lemma dec_fold_block : forall key s, block16 key -> block16 s ->
+  block16 (fold_left (dec_round (KeyExpansion key)) (rev (seq 1 9)) s).
+Proof.
+  intros key s Hk Hs. apply fold_block; [|exact Hs].
+  intros s' i Hs' Hi. apply dec_round_block; [exact Hs'|].
+  apply seq19_rk_block; [exact Hk|]. apply in_rev. exact Hi.
+Qed.
+
+Lemma Cipher_block : forall key b, block16 key -> block16 b -> block16 (Cipher key b).
+Proof.
+  intros key b Hk Hb. unfold Cipher. cbv zeta.
+  assert (H0 : block16 (rk (KeyExpansion key) 0)) by (apply rk_block; [exact Hk|lia]).
+  assert (H10 : block16 (rk (KeyExpansion key) 10)) by (apply rk_block; [exact Hk|lia]).
+  pose proof (enc_fold_block key (AddRoundKey b (rk (KeyExpansion key) 0)) Hk) as Hf.
+  auto 10 with b16.
+Qed.
+
+Lemma InvCipher_block : forall key c, block16 key -> block16 c -> block16 (InvCipher key c).
+Proof.
+  intros key c Hk Hc. unfold InvCipher. cbv zeta.
+  assert (H0 : block16 (rk (KeyExpansion key) 0)) by (apply rk_block; [exact Hk|lia]).
+  assert (H10 : block16 (rk (KeyExpansion key) 10)) by (apply rk_block; [exact Hk|lia]).
+  pose proof (dec_fold_block key (AddRoundKey c (rk (KeyExpansion key) 10)) Hk) as Hf.
+  auto 10 with b16.
+Qed.
+
+Theorem InvCipher_Cipher : forall key b, block16 key -> block16 b ->
+  InvCipher key (Cipher key b) = b.
+Proof.
+  intros key b Hk Hb. unfold InvCipher, Cipher. cbv zeta.
+  set (ks := KeyExpansion key).
+  assert (H0 : block16 (rk ks 0)) by (apply rk_block; [exact Hk|lia]).
+  assert (H10 : block16 (rk ks 10)) by (apply rk_block; [exact Hk|lia]).
+  assert (Hs0 : block16 (AddRoundKey b (rk ks 0))) by auto with b16.
+  pose proof (enc_fold_block key _ Hk Hs0) as Hf. fold ks in Hf.
+  rewrite AddRoundKey_involutive by auto 10 with b16.
+  rewrite fold_dec_enc by (auto; apply seq19_rk_block; exact Hk).
+  rewrite InvShiftRows_ShiftRows, InvSubBytes_SubBytes by auto 10 with b16.
+  apply AddRoundKey_involutive; assumption.
+Qed.
+
+Theorem Cipher_InvCipher : forall key c, block16 key -> block16 c ->
+  Cipher key (InvCipher key c) = c.
+Proof.
+  intros key c Hk Hc. unfold InvCipher, Cipher. cbv zeta.
+  set (ks := KeyExpansion key).
+  assert (H0 : block16 (rk ks 0)) by (apply rk_block; [exact Hk|lia]).
+  assert (H10 : block16 (rk ks 10)) by (apply rk_block; [exact Hk|lia]).
+  assert (Ht0 : block16 (AddRoundKey c (rk ks 10))) by auto with b16.
+  pose proof (dec_fold_block key _ Hk Ht0) as Hf. fold ks in Hf.
+  rewrite AddRoundKey_involutive by auto 10 with b16.
+  rewrite fold_enc_dec by (auto; apply seq19_rk_block; exact Hk).
+  rewrite SubBytes_InvSubBytes, ShiftRows_InvShiftRows by auto 10 with b16.
+  apply AddRoundKey_involutive; assumption.
+Qed.
+
+(* ------------------------------------------------------------------ *)
+(* 6. the remaining C09 statements                                     *)
+(* ------------------------------------------------------------------ *)
+
+Theorem C09_decrypt_inverts_encrypt_proof : forall k b,
+  block16 k -> block16 b -> aes_dec k (aes_enc k b) = b.
+Proof.
+  intros k b Hk Hb.
+  rewrite (C09_encrypt_is_fips197_proof k b Hk Hb).
+  rewrite C09_decrypt_is_fips197_proof by (auto using Cipher_block).
+  apply InvCipher_Cipher; assumption.
+Qed.
+
+Theorem C09_encrypt_inverts_decrypt_proof : forall k b,
+  block16 k -> block16 b -> aes_enc k (aes_dec k b) = b.
+Proof.
+  intros k b Hk Hb.
+  rewrite (C09_decrypt_is_fips197_proof k b Hk Hb).
+  rewrite C09_encrypt_is_fips197_proof by (auto using InvCipher_block).
+  apply Cipher_InvCipher; assumption.
+Qed.
+
+Theorem C09_outputs_are_blocks_proof : forall k b,
+  block16 k -> block16 b -> block16 (aes_enc k b) /\ block16 (aes_dec k b).
+Proof.
+  intros k b Hk Hb. split.
+  - rewrite C09_encrypt_is_fips197_proof by assumption. apply Cipher_block; assumption.
+  - rewrite C09_decrypt_is_fips197_proof by assumption. apply InvCipher_block; assumption.
+Qed.
+
+Theorem C09_tables_are_fips197_proof :
+  tab_s_box = fips_sbox /\ tab_rs_box = fips_inv_sbox /\
+  (forall v, (v < 256)%N ->
+     Gmul 25 v = gmul 2 v /\ Gmul 1 v = gmul 3 v /\ Gmul 0 v = v /\
+     Gmul 223 v = gmul 14 v /\ Gmul 104 v = gmul 11 v /\ Gmul 238 v = gmul 13 v /\ Gmul 199 v = gmul 9 v).
+Proof.
+  split; [exact tab_s_box_fips|]. split; [exact tab_rs_box_fips|].
+  intros v Hv.
+  repeat split;
+    [ apply Gmul_25 | apply Gmul_1 | apply Gmul_0 | apply Gmul_223
+    | apply Gmul_104 | apply Gmul_238 | apply Gmul_199 ]; exact Hv.
+Qed.
+
+(* ------------------------------------------------------------------ *)
+(* 7. known-answer tests and non-vacuity of the hypotheses             *)
+(* ------------------------------------------------------------------ *)
+
+(* FIPS-197 Appendix B *)
+Definition kat_B_key : list N :=
+  [0x2b;0x7e;0x15;0x16;0x28;0xae;0xd2;0xa6;0xab;0xf7;0x15;0x88;0x09;0xcf;0x4f;0x3c].
+Definition kat_B_pt : list N :=
+  [0x32;0x43;0xf6;0xa8;0x88;0x5a;0x30;0x8d;0x31;0x31;0x98;0xa2;0xe0;0x37;0x07;0x34].
+Definition kat_B_ct : list N :=
+  [0x39;0x25;0x84;0x1d;0x02;0xdc;0x09;0xfb;0xdc;0x11;0x85;0x97;0x19;0x6a;0x0b;0x32].
+(* FIPS-197 Appendix C.1 *)
+Definition kat_C1_key : list N :=
+  [0x00;0x01;0x02;0x03;0x04;0x05;0x06;0x07;0x08;0x09;0x0a;0x0b;0x0c;0x0d;0x0e;0x0f].
+Definition kat_C1_pt : list N :=
+  [0x00;0x11;0x22;0x33;0x44;0x55;0x66;0x77;0x88;0x99;0xaa;0xbb;0xcc;0xdd;0xee;0xff].
+Definition kat_C1_ct : list N :=
+  [0x69;0xc4;0xe0;0xd8;0x6a;0x7b;0x04;0x30;0xd8;0xcd;0xb7;0x80;0x70;0xb4;0xc5;0x5a].
+
+Example kat_B_blocks : block16 kat_B_key /\ block16 kat_B_pt /\ block16 kat_B_ct.
+Proof. repeat split. Qed.
+Example kat_C1_blocks : block16 kat_C1_key /\ block16 kat_C1_pt /\ block16 kat_C1_ct.
+Proof. repeat split. Qed.
+
+Example kat_B_spec : Cipher kat_B_key kat_B_pt = kat_B_ct /\ InvCipher kat_B_key kat_B_ct = kat_B_pt.
+Proof. vm_compute. split; reflexivity. Qed.
+Example kat_B_model : aes_enc kat_B_key kat_B_pt = kat_B_ct /\ aes_dec kat_B_key kat_B_ct = kat_B_pt.
+Proof. vm_compute. split; reflexivity. Qed.
+Example kat_C1_spec : Cipher kat_C1_key kat_C1_pt = kat_C1_ct /\ InvCipher kat_C1_key kat_C1_ct = kat_C1_pt.
+Proof. vm_compute. split; reflexivity. Qed.
+Example kat_C1_model : aes_enc kat_C1_key kat_C1_pt = kat_C1_ct /\ aes_dec kat_C1_key kat_C1_ct = kat_C1_pt.
+Proof. vm_compute. split; reflexivity. Qed.
+
+(* the hypotheses [block16 k], [block16 b] of the C09 statements are satisfiable on a
+   non-trivial value, and the conclusions instantiate to the known answers *)
+Example C09_nonvacuous :
+  block16 kat_B_key /\ block16 kat_B_pt /\
+  aes_enc kat_B_key kat_B_pt = Cipher kat_B_key kat_B_pt /\
+  aes_dec kat_B_key kat_B_pt = InvCipher kat_B_key kat_B_pt /\
+  aes_dec kat_B_key (aes_enc kat_B_key kat_B_pt) = kat_B_pt /\
+  aes_enc kat_B_key (aes_dec kat_B_key kat_B_pt) = kat_B_pt /\
+  (block16 (aes_enc kat_B_key kat_B_pt) /\ block16 (aes_dec kat_B_key kat_B_pt)).
+Proof.
+  assert (Hk : block16 kat_B_key) by (repeat split).
+  assert (Hb : block16 kat_B_pt) by (repeat split).
+  split; [exact Hk|]. split; [exact Hb|].
+  split; [apply C09_encrypt_is_fips197_proof; assumption|].
+  split; [apply C09_decrypt_is_fips197_proof; assumption|].
+  split; [apply C09_decrypt_inverts_encrypt_proof; assumption|].
+  split; [apply C09_encrypt_inverts_decrypt_proof; assumption|].
+  apply C09_outputs_are_blocks_proof; assumption.
+Qed.
+
+Print Assumptions C09_encrypt_is_fips197_proof.
+Print Assumptions C09_decrypt_is_fips197_proof.
+Print Assumptions C09_decrypt_inverts_encrypt_proof.
+Print Assumptions C09_encrypt_inverts_decrypt_proof.
+Print Assumptions C09_outputs_are_blocks_proof.
+Print Assumptions C09_tables_are_fips197_proof.
